@@ -110,6 +110,10 @@ class OperationExecutor(ABC, Generic[T]):
     # set by the concrete executors
     operation_identifier: OperationIdentifier
 
+    # True for the executors whose execute() runs user code (a step function, a condition check, a
+    # context body); the others only suspend or hand out an identifier.
+    runs_user_code: bool = False
+
     @abstractmethod
     def check_result_status(self) -> CheckResult[T]:
         """Check operation status and create START checkpoint if needed.
@@ -193,9 +197,14 @@ class OperationExecutor(ABC, Generic[T]):
             # user code of the operation runs.
             # (A context recorded SUCCEEDED whose summarised body is traversed again is replay,
             # not new work: everything beneath a context that completed normally is marked as
-            # done as well, so asking there would reject a legitimate re-traversal.)
+            # done as well, so asking there - or for an operation inside it that runs no user
+            # code, such as a callback that is still open - would reject a legitimate re-traversal.)
             state: ExecutionState | None = getattr(self, "state", None)
-            if state is not None and not result.checkpointed_result.is_succeeded():
+            if (
+                state is not None
+                and self.runs_user_code
+                and not result.checkpointed_result.is_succeeded()
+            ):
                 state.raise_if_orphaned(
                     self.operation_identifier.operation_id,
                     self.operation_identifier.parent_id,
